@@ -151,6 +151,30 @@ def refusal_table(ctx, rule, fa, table, what, extra_terms=(), skip_handlers=True
     return matched
 
 
+def ordered_stmts(fa):
+    """statements of the function in execution-text order of the (normalised) tree: body before orelse before finalbody; nested defs are
+    not entered.  Independent of line numbers, which no longer reflect the order once mirrored if/else arms were normalised back."""
+    out = []
+
+    def walk(stmts):
+        for x in stmts:
+            out.append(x)
+            if isinstance(x, (ast.FunctionDef, ast.AsyncFunctionDef, ast.ClassDef)):
+                continue
+            for fld in ("body", "handlers", "orelse", "finalbody"):
+                blk = getattr(x, fld, None)
+                if isinstance(blk, list):
+                    for h in blk:
+                        if isinstance(h, ast.ExceptHandler):
+                            walk(h.body)
+                    walk([b for b in blk if isinstance(b, ast.stmt)])
+            if hasattr(ast, "Match") and isinstance(x, ast.Match):
+                for c in x.cases:
+                    walk(c.body)
+    walk(fa.node.body)
+    return out
+
+
 def effect_table(ctx, rule, fa, vocabulary, rows, what_prefix="", count=None):
     """rows = [(statement text or prefix, guard `need`, what)].  Every simple statement of the function whose normalised text starts with the
     row's text (at least one must exist) is reached under `need` (dominance) and under no condition outside the function's own test
@@ -158,8 +182,7 @@ def effect_table(ctx, rule, fa, vocabulary, rows, what_prefix="", count=None):
     re-ordering or re-orienting the same tests does not."""
     q = fa.fi.qualname
     simple = (ast.Expr, ast.Assign, ast.AugAssign, ast.AnnAssign, ast.Return, ast.Raise, ast.Break, ast.Continue, ast.Delete)
-    stmts = [x for x in fa.local_nodes(simple)]
-    stmts.sort(key=lambda n: (n.lineno, n.col_offset))
+    stmts = [x for x in ordered_stmts(fa) if isinstance(x, simple)]
     for i, row in enumerate(rows):
         text, need, what = row[:3]
         nth = row[3] if len(row) > 3 else None
